@@ -113,6 +113,11 @@ def estStep (d : EstDrv) (line : String) : EstDrv × String :=
     match (kv? rest "t").bind parseTs? with
     | some t => estFinish d (progressTime d.est t)
     | none => bad
+  | "progressd" :: rest =>
+    -- progress_time to (current time + d raw units of 2^-64 s)
+    match kvInt? rest "d" with
+    | some dd => estFinish d (progressTime d.est (tsAdd d.est.time dd))
+    | none => bad
   | "meas" :: rest =>
     match kvNat? rest "l", kvNat? rest "a", kvNat? rest "b", kvNat? rest "fwd", kvF? rest "v", kvF? rest "u", kvNat? rest "dl" with
     | some l, some a, some b, some fwd, some v, some u, some dl =>
